@@ -80,7 +80,10 @@ def _make(kind, rng, shape, dtype):
 
 
 def run(ck, prop, reps=2):
+    cross_talk(ck, prop)          # first: nothing of this worker has been through a backward yet
+    grad_mode_history(ck, prop)
     rng = ck.rng("history")
+    turn = 0
     for rep in range(reps):
         for dn in ("f64", "f32"):
             dtype = lie.DT[dn]
@@ -109,9 +112,21 @@ def run(ck, prop, reps=2):
                         ck.ratio("history", regime, _close(_vals(r1b), c1, u), 1.0, name, "result_depends_on_what_the_caller_did_to_an_earlier_result", wit)
                     ck.check(torch.equal(_vals(X), v1), "history", regime, name, "operand_changed", wit)
                 # (b) the operand is updated in place to new values (three ways), then used again
-                how = ["copy_", "index", "retract"][(rep + len(name)) % 3]
+                turn += 1
+                how = ["copy_", "index", "retract", "data", "numpy"][turn % 5]
+                if how == "numpy":
+                    # the operand shares its memory with a numpy array that the caller refills (no autograd version bump)
+                    arr = v1.numpy().copy()
+                    X = pp.LieTensor(torch.from_numpy(arr), ltype=lie.LT[kx]) if kx != "R" else torch.from_numpy(arr)
+                    ck.call("history", regime, name, f, X, aux, witness=dict(wit, update=how))
+                    arr[...] = v2.numpy()
                 with torch.no_grad():
-                    if how == "copy_":
+                    if how == "numpy":
+                        pass
+                    elif how == "data":
+                        # written through .data: the values change, the version counter does not
+                        (X.tensor() if isinstance(X, pp.LieTensor) else X).data[...] = v2
+                    elif how == "copy_":
                         X.copy_(_fresh(kx, v2) if kx != "R" else v2)
                     elif how == "index":
                         (X.tensor() if isinstance(X, pp.LieTensor) else X)[...] = v2
@@ -135,7 +150,8 @@ def run(ck, prop, reps=2):
         dtype = lie.DT[dn]
         u = lie.u_of(dtype)
         for (name, kx, kaux, f) in ops_for(prop):
-            for lay in ("strided-batch", "strided-last", "expanded", "transposed", "requires_grad"):
+            for lay in ("strided-batch", "strided-last", "expanded", "transposed", "requires_grad", "aux_requires_grad", "both_require_grad",
+                        "no_grad", "parameter"):
                 shape = (3,) if lay != "transposed" else (2, 3)
                 v = _make(kx, rng, shape, dtype)
                 d = v.shape[-1]
@@ -153,19 +169,35 @@ def run(ck, prop, reps=2):
                 elif lay == "transposed":
                     big = v.transpose(0, 1).contiguous()
                     view = big.transpose(0, 1)
-                else:
+                elif lay in ("requires_grad", "both_require_grad", "no_grad"):
                     view = v.clone().requires_grad_(True)
-                if lay != "requires_grad" and view.is_contiguous() and lay != "expanded":
+                else:
+                    view = v.clone()
+                strided = lay in ("strided-batch", "strided-last", "expanded", "transposed")
+                if strided and view.is_contiguous() and lay != "expanded":
+                    continue
+                if lay in ("aux_requires_grad", "both_require_grad") and kaux is None:
                     continue
                 aux = None if kaux is None else (_fresh(kaux, _make(kaux, rng, shape, dtype)) if kaux in lie.LT else _make(kaux, rng, shape, dtype))
+                aux_plain = aux
+                if lay in ("aux_requires_grad", "both_require_grad"):
+                    # how an operand takes part in autograd must not change the value of the result
+                    aux = (_fresh(kaux, _vals(aux)) if kaux in lie.LT else aux.clone()).requires_grad_(True)
                 Xv = pp.LieTensor(view, ltype=lie.LT[kx]) if kx != "R" else view
+                if lay == "parameter":
+                    Xv = pp.Parameter(Xv) if kx != "R" else torch.nn.Parameter(Xv)
                 regime = f"{name}/{dn}/layout:{lay}"
                 wit = {"op": name, "dtype": dn, "layout": lay}
-                ok, r = ck.call("layout", regime, name, f, Xv, aux, witness=wit)
-                ok2, ref = ck.call("layout", regime, name, f, _fresh(kx, v), aux, witness=wit)
+                if lay == "no_grad":
+                    with torch.no_grad():
+                        ok, r = ck.call("layout", regime, name, f, Xv, aux, witness=wit)
+                else:
+                    ok, r = ck.call("layout", regime, name, f, Xv, aux, witness=wit)
+                ok2, ref = ck.call("layout", regime, name, f, _fresh(kx, v), aux_plain, witness=wit)
                 ck.count("layout", regime, key=(name, dn, lay))
                 if ok and ok2:
-                    ck.ratio("layout", regime, _close(_vals(r), _vals(ref), u), 1.0, name, "result_depends_on_memory_layout_of_the_operand", wit)
+                    ck.ratio("layout", regime, _close(_vals(r), _vals(ref), u), 1.0, name, "result_depends_on_memory_layout_of_the_operand" if strided else
+                             "result_depends_on_how_an_operand_takes_part_in_autograd", wit)
                     ck.check(torch.equal(_vals(Xv), v), "layout", regime, name, "operand_changed", wit)
                     ck.mark("layout/" + lay)
     if prop == "C03":
@@ -196,6 +228,121 @@ def run(ck, prop, reps=2):
                          {"layout": lay, "dtype": dn, "base_after": now.tolist()})
                 ck.mark("layout/identity_/" + lay)
         ck.require("layout/identity_/transposed", "layout/identity_/column-slice")
+    ck.require("history/data", "history/numpy", "layout/no_grad", "layout/parameter")
+    if prop in ("C03", "C05"):
+        ck.require("layout/aux_requires_grad", "layout/both_require_grad")
     ck.require("history/copy_", "history/index", "history/retract", "layout/strided-batch", "layout/strided-last", "layout/expanded",
                "layout/transposed", "layout/requires_grad")
     ck.floor("history", 8)
+
+
+ALL_PROPS = ("C01", "C02", "C03", "C05")
+XT_SHAPES = ((), (3,), (2, 2))
+
+
+def _aux_for(kaux, rng, shape, dtype):
+    if kaux is None:
+        return None
+    return _fresh(kaux, _make(kaux, rng, shape, dtype)) if kaux in lie.LT else _make(kaux, rng, shape, dtype)
+
+
+def _plain(r):
+    return r.tensor() if isinstance(r, pp.LieTensor) else r
+
+
+def battery(rng, dtype):
+    """Forward and backward of every operation of the four Lie-tensor properties on fresh operands that require grad,
+    for the lshapes the monitors use: whatever the library remembers between calls (templates, memoised blocks,
+    switch-overs) has been through all of it afterwards.  -> (calls that ran, calls that raised)."""
+    ran = failed = 0
+    for prop in ALL_PROPS:
+        for (name, kx, kaux, f) in ops_for(prop):
+            for shape in XT_SHAPES:
+                try:
+                    X = _fresh(kx, _make(kx, rng, shape, dtype)).requires_grad_(True)
+                    aux = _aux_for(kaux, rng, shape, dtype)
+                    if aux is not None:
+                        aux = aux.requires_grad_(True)
+                    t = _plain(f(X, aux))
+                    if isinstance(t, torch.Tensor) and t.requires_grad:
+                        (t * torch.as_tensor(rng.standard_normal(tuple(t.shape))).to(t.dtype)).sum().backward()
+                    ran += 1
+                except Exception:
+                    failed += 1
+    return ran, failed
+
+
+def cross_talk(ck, prop):
+    """r1 = f(X) for every operation of `prop`; then the battery; then f(X) again on the same operands: the value of an
+    operation does not depend on which other library calls (forward or backward, any type) ran in between."""
+    rng = ck.rng("crosstalk")
+    for dn in ("f64", "f32"):
+        dtype = lie.DT[dn]
+        u = lie.u_of(dtype)
+        held = []
+        for (name, kx, kaux, f) in ops_for(prop):
+            for shape in XT_SHAPES:
+                X = _fresh(kx, _make(kx, rng, shape, dtype))
+                aux = _aux_for(kaux, rng, shape, dtype)
+                wit = {"op": name, "dtype": dn, "lshape": list(shape)}
+                ok, r1 = ck.call("crosstalk", f"{name}/{dn}", name, f, X, aux, witness=wit)
+                if ok:
+                    held.append((name, f, X, aux, _vals(r1), wit))
+        ran, failed = battery(rng, dtype)
+        ck.note_add("crosstalk_battery_calls", ran)
+        ck.note_add("crosstalk_battery_calls_raised", failed)
+        for (name, f, X, aux, c1, wit) in held:
+            ok, r2 = ck.call("crosstalk", f"{name}/{dn}", name, f, X, aux, witness=wit)
+            ck.count("crosstalk", f"{name}/{dn}", key=(name, dn, tuple(wit["lshape"])))
+            if ok:
+                ck.ratio("crosstalk", f"{name}/{dn}", _close(_vals(r2), c1, u), 1.0, name,
+                         "result_depends_on_other_library_calls_made_in_between", wit)
+        ck.mark("crosstalk/" + dn)
+    ck.require("crosstalk/f64", "crosstalk/f32")
+
+
+def grad_mode_history(ck, prop):
+    """The same object evaluated first under no_grad and then with grad enabled (and twice with grad enabled): the later
+    result takes part in autograd exactly like the result on a fresh object - same gradient, every backward works."""
+    rng = ck.rng("gradmode")
+    for dn in ("f64", "f32"):
+        dtype = lie.DT[dn]
+        u = lie.u_of(dtype)
+        for (name, kx, kaux, f) in ops_for(prop):
+            shape = (3,)
+            v = _make(kx, rng, shape, dtype)
+            aux = _aux_for(kaux, rng, shape, dtype)
+            X1 = _fresh(kx, v).requires_grad_(True)
+            X2 = _fresh(kx, v).requires_grad_(True)
+            wit = {"op": name, "dtype": dn, "lshape": list(shape)}
+            regime = f"{name}/{dn}"
+            with torch.no_grad():
+                ok0, _ = ck.call("gradmode", regime, name, f, X1, aux, witness=wit)
+            ok1, ra = ck.call("gradmode", regime, name, f, X1, aux, witness=wit)
+            ok1b, rb = ck.call("gradmode", regime, name, f, X1, aux, witness=wit)
+            ok2, ref = ck.call("gradmode", regime, name, f, X2, aux, witness=wit)
+            ck.count("gradmode", regime, key=(name, dn))
+            if not (ok0 and ok1 and ok1b and ok2):
+                continue
+            ta, tb, tr = _plain(ra), _plain(rb), _plain(ref)
+            if not (isinstance(tr, torch.Tensor) and tr.requires_grad):
+                continue
+            if not ck.check(ta.requires_grad and tb.requires_grad, "gradmode", regime, name,
+                            "result_detached_from_autograd_after_an_earlier_call_under_no_grad", wit):
+                continue
+            g = torch.as_tensor(rng.standard_normal(tuple(tr.shape))).to(dtype)
+            grads = []
+            for t, X, tag in ((ta, X1, "first"), (tb, X1, "second"), (tr, X2, "fresh")):
+                okg, gr = ck.call("gradmode", regime, name, lambda t=t, X=X: torch.autograd.grad((t * g).sum(), X, allow_unused=True)[0],
+                                  witness=dict(wit, backward_of=tag + " grad-enabled result"))
+                grads.append(_plain(gr) if okg and gr is not None else None)
+            if grads[2] is None:
+                continue
+            for gr, tag in ((grads[0], "first"), (grads[1], "second")):
+                if gr is None:
+                    ck.check(False, "gradmode", regime, name, "no_gradient_reaches_the_operand_after_an_earlier_call_under_no_grad", dict(wit, result=tag))
+                else:
+                    ck.ratio("gradmode", regime, _close(gr.detach(), grads[2].detach(), u), 1.0, name,
+                             "gradient_depends_on_an_earlier_call_in_another_grad_mode", dict(wit, result=tag))
+            ck.mark("gradmode/" + dn)
+    ck.require("gradmode/f64", "gradmode/f32")
